@@ -44,6 +44,7 @@ type HarnessCfg struct {
 	MethodSetHook func(e *Exec, x Iface, it *types.Interface) (bool, bool)
 	SymMethods bool
 	ReplayCuts bool
+	Env map[string]string
 }
 
 type Loaded struct {
@@ -276,6 +277,13 @@ func (l *Loaded) parseDirective(h *HarnessCfg, sp *ssa.Package, line string) {
 		h.SymBytes = true
 	case "timers":
 		h.Timers = true
+	case "env":
+		if h.Env == nil {
+			h.Env = map[string]string{}
+		}
+		if len(f) >= 3 {
+			h.Env[f[1]] = f[2]
+		}
 	case "replay-with-cuts":
 		h.ReplayCuts = true
 	case "twin":
